@@ -111,7 +111,11 @@ MsgScanR(x, start, pos, units, emb) ==
          [] s.ph = "REJ" ->
               LET nl == FirstNL(x, start) IN
               IF nl = 0 THEN [kind |-> "partial", len |-> 0, units |-> units, emb |-> emb]
-              ELSE [kind |-> "synfault", len |-> nl, units |-> Append(units, s), emb |-> emb \/ nl < s.n]
+              ELSE IF emb \/ nl < s.n
+                   THEN \* a newline inside a payload AND a syntax fault: where the message ends is
+                        \* not defined by the properties (C06 speaks of complete messages only)
+                        [kind |-> "free", len |-> 0, units |-> units, emb |-> TRUE]
+                   ELSE [kind |-> "synfault", len |-> nl, units |-> Append(units, s), emb |-> FALSE]
          [] OTHER -> [kind |-> "partial", len |-> 0, units |-> units, emb |-> emb]
 MsgScan(x, start) == MsgScanR(x, start, start, <<>>, FALSE)
 
